@@ -252,6 +252,11 @@ int32_t jls_fsr_close(struct jls_core_fsr_s * self) {
     int32_t rc;
     if (self) {
         if (self->data) {
+            if (self->shift_amount) {  // store the trailing partial byte still held in shift_buffer
+                uint8_t * data_u8 = (uint8_t *) &self->data->data[0];
+                data_u8[(self->data->header.entry_count * sample_size_bits(self)) / 8] =
+                        self->shift_buffer & ((1 << self->shift_amount) - 1);
+            }
             rc = wr_data(self);  // write remaining sample data
             if (rc) {
                 JLS_LOGE("wr_data returned %" PRIi32, rc);
